@@ -30,6 +30,7 @@ type RReq struct {
 }
 
 type RTouch struct {
+	N  int64 // read by the rules' conc blocks through the LOCAL obj (obj.N): a two-level read resolved in the rule's local store
 	n  int64
 	In *RTouch // a nested object: obj.In.Touch() is a three-level call whose first part is a rule LOCAL
 }
@@ -41,7 +42,7 @@ func (t *RTouch) Touch() int64 { return 1 }
 func raceRules(ver int) string {
 	s := ""
 	for i, n := range []string{"pa", "pb", "pc", "pd"} {
-		s += fmt.Sprintf("rule \"%s\" \"v%d\" salience %d begin\n  loc = Req.Id\n  obj = Mk()\n  sm = Sum2(loc, Req.Id)\n  conc {\n    x = loc + 1\n    obj.Touch()\n    y = loc + 2\n    obj.In.Touch()\n    z = Req.Id\n    obj.In.Touch()\n    w = 3\n  }\n  if Req.Flag {\n    return %d + x + y\n  }\nend\n", n, ver, 9-2*i, ver*1000)
+		s += fmt.Sprintf("rule \"%s\" \"v%d\" salience %d begin\n  loc = Req.Id\n  obj = Mk()\n  sm = Sum2(loc, Req.Id)\n  conc {\n    x = loc + 1\n    obj.Touch()\n    y = loc + 2 + obj.N\n    obj.In.Touch()\n    z = Req.Id\n    obj.In.Touch()\n    w = 3\n  }\n  if Req.Flag {\n    return %d + x + y\n  }\nend\n", n, ver, 9-2*i, ver*1000)
 	}
 	return s
 }
@@ -139,7 +140,7 @@ func init() {
 				default:
 				}
 				v++
-				switch v % 6 {
+				switch v % 8 {
 				case 0:
 					gp.UpdatePooledRules(raceRules(v))
 				case 1:
@@ -148,7 +149,7 @@ func init() {
 					gp.SetExecModel(1 + v%4)
 				case 3:
 					gp.RemoveRules([]string{"pd"})
-				case 4:
+				case 4, 6, 7: // clearing is the rarest operation in practice and the one that touches every published pointer: three of eight here
 					gp.ClearPoolRules()
 					gp.UpdatePooledRules(raceRules(v))
 				case 5:
@@ -156,7 +157,7 @@ func init() {
 					gp.GetRulesNumber()
 					gp.GetExecModel()
 				}
-				time.Sleep(2 * time.Millisecond)
+				time.Sleep(time.Millisecond)
 			}
 		}()
 		// (2) a stand-alone engine per goroutine sharing one rule builder's compiled rules (read-only)
